@@ -54,6 +54,21 @@ def check_member(country: str, bban: str, between=None, via_object=False):
                     (kind, val)))
     elif val != country + ref + bban:
         bad.append(("from_bban-wrong-digits", {**case, "dd": None}, country + ref + bban, val))
+    # the same assembly asked for in other ways: non-validating, and from differently spelled strings
+    for how, args, kw in (("allow_invalid", (country, bban), {"allow_invalid": True}),
+                          ("lower-case", (country.lower(), bban.lower()), {}),
+                          ("lower-case+allow_invalid", (country, bban.lower()), {"allow_invalid": True}),
+                          ("printed+allow_invalid", (country, " ".join(bban[i:i + 4] for i in range(0, len(bban), 4)) + "\n"),
+                           {"allow_invalid": True}),
+                          ("validate_bban=False keyword", (country, bban), {"validate_bban": False})):
+        k9, v9 = lib.outcome(lambda: str(lib.IBAN.from_bban(*args, **kw)))
+        if how not in ("allow_invalid", "validate_bban=False keyword") and k9 == "lib":
+            # a differently spelled BBAN string may be refused (the statement speaks of conforming
+            # BBANs); but whatever IS assembled from it must carry the computed digits
+            continue
+        if (k9, v9) != ("ok", country + ref + bban):
+            bad.append((f"from_bban-wrong [{how}]", {**case, "dd": None, "how": how}, country + ref + bban, (k9, v9)))
+            break
     if not ("02" <= ref <= "98"):
         bad.append(("reference-digits-out-of-range", {**case, "dd": None}, "02..98", ref))
     canon = country + ref + bban
@@ -94,6 +109,17 @@ def check_member(country: str, bban: str, between=None, via_object=False):
                 if (k2 == "ok") != acc:
                     bad.append(("constructor-given-an-IBAN-object-disagrees-with-text",
                                 {**case, "dd": dd, "via_object": True}, "accept" if acc else "reject", (k2, v2)))
+        if via_object or dd in ("00", "01", "99", ref):
+            # the other ways of asking: is_valid and validate() of the unvalidated object, the
+            # non-validating assembly followed by validate()
+            ko, obj = lib.outcome(lib.IBAN, country + dd + bban, allow_invalid=True)
+            if ko == "ok":
+                k7, v7 = lib.outcome(lambda: obj.is_valid)
+                k8, _ = lib.outcome(obj.validate)
+                if (k7, v7) != ("ok", dd == ref) or (k8 == "ok") != (dd == ref):
+                    bad.append(("is_valid-or-validate()-of-the-unvalidated-object-disagrees" +
+                                ("-for-an-alias" if dd in ("00", "01", "99") and dd != ref else ""),
+                                {**case, "dd": dd, "entry": "is_valid"}, dd == ref, ((k7, v7), k8)))
         if acc != (dd == ref):
             if acc:
                 sig = ("alias-accepted" if dd in ("00", "01", "99") else "non-canonical-pair-accepted")
@@ -176,7 +202,9 @@ def shard(args):
         if f == "distinct":
             # 'special' conforming BBANs: dictionary tokens, near-tokens, long runs of zeros / nines
             # at every offset the structure admits
-            for label, b, _ in families.special_bodies(c, base):
+            import itertools as _it
+            for label, b, _ in _it.chain(families.special_bodies(c, base),
+                                         families.small_field_bodies(c, base, dictionary_only=True)):
                 part["evals"] += 7
                 part.seen.add(hash(("special", b)))
                 part.stat("special_members")
